@@ -185,8 +185,9 @@ def parse_tlc(out, res):
     m = re.search(r"Error: Action property (\S+) is violated", out)
     if m:
         res.violated, res.kind = m.group(1).rstrip("."), "action"
-    if "Error: Temporal properties were violated" in out:
-        res.violated, res.kind = "temporal", "temporal"
+    m = re.search(r"Error: Temporal propert(?:y|ies) (.*?) (?:was|were) violated", out)
+    if "Error: Temporal properties were violated" in out or m:
+        res.violated, res.kind = (m.group(1) if m else "temporal"), "temporal"
     if "Error: Deadlock reached" in out:
         res.violated, res.kind = "deadlock", "deadlock"
     m = re.search(r"Error: The postcondition (\S+)?", out)
